@@ -197,16 +197,22 @@ def cargo_build(area):
 # ---------------------------------------------------------------------------------------------
 # S4: running the two sides
 
-def _run_stream(binary, lines, tag, timeout_per_case=5.0, min_timeout=60):
+MAX_FATAL = 12    # after this many crashes/hangs in one stream the rest of the stream is not run
+
+
+def _run_stream(binary, lines, tag, stall_s=15.0):
     """Feed `lines` to `binary`; returns one observation per line.  A crash or a hang is attributed
-    to the first case without an output line (the harness flushes after every case)."""
+    to the first case without an output line (the harness flushes after every case).  A hang is
+    detected by lack of progress: no new output line for `stall_s` seconds."""
     os.makedirs(WORK, exist_ok=True)
     obs = []
     start = 0
     n = len(lines)
-    guard = 0
+    fatal = 0
     while start < n:
-        guard += 1
+        if fatal >= MAX_FATAL:
+            obs.extend(["SKIPPED-AFTER-FATAL"] * (n - start))
+            break
         chunk = lines[start:]
         inp = os.path.join(WORK, "in_%s_%d" % (tag, os.getpid()))
         outp = os.path.join(WORK, "out_%s_%d" % (tag, os.getpid()))
@@ -215,21 +221,37 @@ def _run_stream(binary, lines, tag, timeout_per_case=5.0, min_timeout=60):
         status = "ok"
         with open(inp, "rb") as fi, open(outp, "wb") as fo:
             p = subprocess.Popen([binary], stdin=fi, stdout=fo, stderr=subprocess.DEVNULL)
-            try:
-                p.wait(timeout=max(min_timeout, 0.002 * len(chunk) + timeout_per_case))
-            except subprocess.TimeoutExpired:
-                p.kill()
-                p.wait()
-                status = "TIMEOUT"
+            last_size = -1
+            last_change = time.time()
+            while True:
+                try:
+                    p.wait(timeout=0.5)
+                    break
+                except subprocess.TimeoutExpired:
+                    pass
+                try:
+                    sz = os.path.getsize(outp)
+                except OSError:
+                    sz = 0
+                now = time.time()
+                if sz != last_size:
+                    last_size = sz
+                    last_change = now
+                elif now - last_change > stall_s:
+                    p.kill()
+                    p.wait()
+                    status = "TIMEOUT"
+                    break
         got = open(outp, encoding="utf-8", errors="replace").read().split("\n")
         if got and got[-1] == "":
             got.pop()
+        elif got and status != "ok":
+            got.pop()     # a partial last line of a killed process
         complete = got[:len(chunk)]
         if status == "ok" and p.returncode == 0 and len(complete) == len(chunk):
             obs.extend(complete)
             start = n
         else:
-            # the case after the last complete line is the culprit
             k = len(complete)
             if status != "TIMEOUT" and p.returncode == 0 and k < len(chunk):
                 status = "SHORT-OUTPUT"
@@ -242,13 +264,12 @@ def _run_stream(binary, lines, tag, timeout_per_case=5.0, min_timeout=60):
                 obs.extend(complete[:k])
                 obs.append(status)
                 start += k + 1
+                fatal += 1
         for f in (inp, outp):
             try:
                 os.remove(f)
             except OSError:
                 pass
-        if guard > 10000:
-            break
     return obs
 
 
@@ -403,6 +424,9 @@ def run_check(P, tier, seed, replay=None):
         mo = run_model(P.AREA, cases) if ok_exe else [None] * len(cases)
         out = []
         for c, i, m in zip(cases, io, mo):
+            if i == "SKIPPED-AFTER-FATAL" or m == "SKIPPED-AFTER-FATAL":
+                out.append((c, i, m, None, False))
+                continue
             why = P.predicate(c, i)
             if not why and m is not None:
                 # optional second predicate that may also look at what the model side printed (e.g. the
